@@ -1,5 +1,6 @@
 CONSTANTS
   FAMILY = "G8"
+  NODES = 2
 SPECIFICATION Spec
 INVARIANTS DesignC13 Emit
 CHECK_DEADLOCK FALSE
